@@ -10,7 +10,7 @@ import (
 func TestWorker(t *testing.T) {
 	sim.Quiet()
 	if inChild() {
-		childMain([]evaluator{C02{}, C06{}})
+		childMain([]evaluator{C02{}, C06{}, C08X{}})
 	}
-	sim.RunWorker(t, []sim.Check{C02{}, C06{}})
+	sim.RunWorker(t, []sim.Check{C02{}, C06{}, C08X{}})
 }
